@@ -421,6 +421,7 @@ func TestCheck(t *testing.T) {
 
 	if !engine.Thorough() {
 		q := opts{shard: true}
+	engine.Explore(customGBody(kc), engine.Opts{Name: "k256/pedersen/custom-g", Budget: engine.Budget(2*time.Minute, 10*time.Minute)})
 		engine.Explore(body(kc, configs(full, oneAssignment()), []kind{k1}, q), engine.Opts{Name: "k256/catalogue/k=1", Budget: 12 * time.Minute})
 		engine.Explore(body(kc, configs(small, oneAssignment()), []kind{k2, k3, spA, spB}, opts{}), engine.Opts{Name: "k256/small/combined+special", Budget: 6 * time.Minute})
 		engine.Explore(body(bc, configs(small, oneAssignment()), []kind{k1}, q), engine.Opts{Name: "bls12381g1/small/k=1", Budget: 6 * time.Minute})
